@@ -26,7 +26,8 @@ def run(c: Check):
     fails = c.validate_segments("TraceForward", "TraceForward.cfg", ev, timeout=1800)
     fails += c.validate_segments("TraceForward", "TraceForward.cfg", ev_x, is_reset=lambda e: True, max_fail=10, timeout=1800)
     for e in ev_x:
-        c.count_case(("exchange", e["net"], e["udp"], e["tcp"], e.get("reuse"), e.get("oneshot")), nontrivial=e["udp"] != "valid")
+        c.count_case(("exchange", e["net"], e["udp"], e["tcp"], e.get("reuse"), e.get("oneshot"), e.get("late"), e.get("rep")),
+                     nontrivial=e["udp"] != "valid")
     nq = nfb = nerr = nrec = 0
     for e in ev:
         if e["ev"] == "Query":
